@@ -31,6 +31,7 @@ func (p *PropSpec) Bounds(tier string) string {
 func (p *PropSpec) configure(cfg *Config, tier, entry string) {
 	if tier == "thorough" {
 		cfg.Preempt = 3
+		cfg.MaxPaths = 20_000_000
 	}
 	if p.Tune != nil {
 		p.Tune(cfg, tier, entry)
@@ -104,6 +105,12 @@ var propSpecs = []PropSpec{
 		Outside:     "n beyond the bound; comparison functions that are not strict weak orderings; Set sorting is covered under C18",
 		Assumptions: commonAssumptions,
 		Tune:        func(cfg *Config, tier, entry string) { cfg.Race = false }},
+	{ID: "C14", Pkgs: []string{"."},
+		BoundsQ:     "arithmetic: <=3 Add(num) with num any value in [-2^61,2^61]; scenarios: <=2 workers x <=2 waiters, 4 launchers (Launch, Operation.Add, DoTimes, manual Add/Done), cancellation of one waiter, preemption bound 2; reuse: 2 rounds at preemption bound 1",
+		BoundsT:     "preemption bound 3 (reuse: 2)",
+		Outside:     "more waiters/workers/rounds; overflow of the counter beyond 2^62; durations",
+		Assumptions: commonAssumptions,
+		Tune:        func(cfg *Config, tier, entry string) {}},
 	{ID: "TV", Pkgs: []string{"internal"}, BoundsQ: "translator validation corpus"},
 }
 
